@@ -21,6 +21,7 @@ open TM.Directive
 inductive Val
   | int (n : Int)
   | bool (b : Bool)
+  | float (quarters : Int)  -- an f64 literal / value that is a multiple of 1/4 (|v - e| < EPSILON is equality on these); never equal to an integer matcher or value
   | other                   -- a string / debug value: matches no integer or boolean matcher
 deriving DecidableEq, Repr
 
